@@ -5,16 +5,28 @@
 //! one IndexedReader while the simulator fragments reads, injects EINTR and EIO, and truncates
 //! the file. Every operation is judged against a Vec-backed reference model alone.
 
-use crate::gen::{show, string_from};
+use crate::gen::{magic_size, near_magic, show, string_from};
 use crate::runner::{fail, Property, Scenario, Verdict};
 use crate::world::{Chunk, IoCfg, SimRead, SimSeekRead, World, CHUNKS, W};
 use bio::io::fasta::{Index, IndexedReader};
 use serde_json::json;
 use std::rc::Rc;
 
-const NAME_CHARS: [char; 18] = [
-    'c', 'h', 'r', '1', '2', 'X', '_', '.', '-', '|', ':', '#', '+', '=', '@', '>', 'é', '中',
-];
+/// sequence-name alphabet: printable ASCII without white space and '"' (csv quoting of the .fai),
+/// plus a few multi-byte characters; 'c' first (simplest).
+fn name_chars() -> &'static [char] {
+    static A: std::sync::OnceLock<Vec<char>> = std::sync::OnceLock::new();
+    A.get_or_init(|| {
+        let mut v = vec!['c', 'h', 'r', '1', '2', 'X', '_', '.'];
+        for c in 33u8..=126 {
+            if c != b'"' && !v.contains(&(c as char)) {
+                v.push(c as char);
+            }
+        }
+        v.extend(['é', '中', '😀', '\u{7f}']);
+        v
+    })
+}
 const BASES: &[u8] = b"ACGTNRYKMSWBDHVacgtn";
 
 struct RecModel {
@@ -36,7 +48,23 @@ struct FileModel {
 
 const WIDTHS_EDGE: [usize; 8] = [60, 511, 512, 513, 8191, 8192, 8193, 70];
 
-fn gen_file(w: &World, large: bool, max_recs: u64, max_len: u64) -> FileModel {
+#[derive(Clone, Copy, PartialEq, Eq, Debug)]
+enum Scale {
+    Small,
+    /// lengths up to 20 000, widths around 512 and 8192
+    Large,
+    /// lengths up to 300 000, widths up to 70 000 (crosses 64 KiB)
+    Huge,
+    /// up to 40 records with similar names
+    Many,
+}
+
+fn gen_file(w: &World, scale: Scale, max_recs: u64, max_len: u64) -> FileModel {
+    // a per-run magic size that line widths and lengths may share (see gen::magic_size)
+    let magic = if scale == Scale::Small && max_len >= 60 && w.chance(1, 4) { Some(magic_size(w, 16)) } else { None };
+    if magic.is_some() {
+        w.probe("magic_size_run");
+    }
     let crlf = w.chance(1, 2);
     let term: &[u8] = if crlf { b"\r\n" } else { b"\n" };
     let last_line_terminated = !w.chance(1, 3);
@@ -49,30 +77,51 @@ fn gen_file(w: &World, large: bool, max_recs: u64, max_len: u64) -> FileModel {
         own_len_as_width: bool,
     }
     let mut plans: Vec<Plan> = Vec::new();
+    let max_recs = if scale == Scale::Many { 40 } else { max_recs };
     loop {
         let i = plans.len();
-        if i > 0 && !w.more(i as u64, max_recs) {
-            break;
+        if i > 0 {
+            let go = if scale == Scale::Many { (i as u64) < max_recs && w.chance(15, 16) } else { w.more(i as u64, max_recs) };
+            if !go {
+                break;
+            }
         }
-        let mut name = string_from(w, &NAME_CHARS, 1, 6);
+        let mut name = match w.draw(8) {
+            // names that are prefixes / extensions of an earlier name, and numeric-looking names
+            1 if i > 0 => format!("{}{}", plans[w.draw(i as u64) as usize].name, string_from(w, name_chars(), 1, 2)),
+            2 => format!("{}", w.draw(30)),
+            3 => string_from(w, name_chars(), 1, 40),
+            _ => string_from(w, name_chars(), 1, 6),
+        };
         while plans.iter().any(|p| p.name == name) {
             name.push_str(&format!("{}", i));
         }
-        let (width, len) = if large {
-            let width = if w.chance(1, 2) {
-                *w.pick(&WIDTHS_EDGE)
-            } else {
-                1 + w.draw(100) as usize
-            };
-            (width, 1 + w.draw(20_000) as usize)
-        } else {
-            (1 + w.small(0, 11) as usize, 1 + w.small(0, max_len - 1) as usize)
+        let (width, len) = match scale {
+            Scale::Large => {
+                let width = if w.chance(1, 2) { *w.pick(&WIDTHS_EDGE) } else { 1 + w.draw(100) as usize };
+                (width, 1 + w.draw(20_000) as usize)
+            }
+            Scale::Huge => {
+                let width = match w.draw(3) {
+                    0 => *w.pick(&[65535usize, 65536, 65537, 16384, 32768, 70_000]),
+                    1 => 1 + w.draw(70_000) as usize,
+                    _ => *w.pick(&WIDTHS_EDGE),
+                };
+                (width, 1 + w.draw(300_000) as usize)
+            }
+            _ => match magic {
+                Some(m) if w.chance(1, 2) => {
+                    let width = if w.chance(2, 3) { m } else { 1 + w.small(0, 11) as usize };
+                    (width, near_magic(w, m, 300_000))
+                }
+                _ => (1 + w.small(0, 11) as usize, 1 + w.small(0, max_len - 1) as usize),
+            },
         };
         // position-dependent pattern so that any shift or drop is visible; two draws, not `len`
         let a = w.draw(BASES.len() as u64) as usize;
         let b = 1 + w.draw(6) as usize;
         let seq: Vec<u8> = (0..len)
-            .map(|i| BASES[(a + i * b + i / 7 + i / 61) % BASES.len()])
+            .map(|i| BASES[(a + i * b + i / 7 + i / 61 + i / 4099) % BASES.len()])
             .collect();
         let desc = w.chance(1, 3);
         // a single-line record may be described by its own length (what samtools writes) or by
@@ -190,9 +239,30 @@ enum ReadOp {
     Nothing,
 }
 
-fn gen_interval(w: &World, len: u64) -> (u64, u64, bool) {
+/// A coordinate on or next to a multiple of `unit` (line width, iterator buffer, BufReader size).
+fn aligned(w: &World, len: u64, unit: u64) -> u64 {
+    let unit = unit.max(1);
+    let k = w.draw(len / unit + 2);
+    let d = [0i64, -1, 1][w.draw(3) as usize];
+    ((k * unit) as i64 + d).clamp(0, len as i64) as u64
+}
+
+fn gen_interval(w: &World, len: u64, width: u64) -> (u64, u64, bool) {
     // returns (s, e, valid)
-    match w.draw(12) {
+    match w.draw(15) {
+        12 | 13 => {
+            // both ends on / next to a line boundary or a buffer-size multiple
+            let unit = *w.pick(&[width, 512, 8192, width * 2, 64]);
+            let a = aligned(w, len, unit);
+            let b = aligned(w, len, unit);
+            (a.min(b), a.max(b), true)
+        }
+        14 => {
+            // an interval of exactly a buffer-size-like length
+            let l = (*w.pick(&[512u64, 511, 513, 8192, 8191, 8193, width, width + 1])).min(len);
+            let s = w.draw(len - l + 1);
+            (s, s + l, true)
+        }
         0..=6 => {
             let s = w.draw(len + 1);
             let e = s + w.draw(len - s + 1);
@@ -345,7 +415,7 @@ fn run_history(w: &W, f: &FileModel, steps: u64, allow_faults: bool, allow_cut: 
 
     let mut step = 0u64;
     loop {
-        if step > 0 && !w.more(step, steps) {
+        if step > 0 && !(if steps > 10 { w.more_p(step, steps, 19, 20) } else { w.more(step, steps) }) {
             break;
         }
         let this_step = step;
@@ -356,12 +426,12 @@ fn run_history(w: &W, f: &FileModel, steps: u64, allow_faults: bool, allow_cut: 
         let fop = match w.draw(10) {
             0..=2 => {
                 let r = w.draw(nrec as u64) as usize;
-                let (s, e, _) = gen_interval(w, f.recs[r].seq.len() as u64);
+                let (s, e, _) = gen_interval(w, f.recs[r].seq.len() as u64, f.recs[r].line_bases);
                 FetchOp::Name(r, s, e)
             }
             3..=4 => {
                 let r = w.draw(nrec as u64) as usize;
-                let (s, e, _) = gen_interval(w, f.recs[r].seq.len() as u64);
+                let (s, e, _) = gen_interval(w, f.recs[r].seq.len() as u64, f.recs[r].line_bases);
                 FetchOp::Rid(r, s, e)
             }
             5 => FetchOp::AllName(w.draw(nrec as u64) as usize),
@@ -712,19 +782,29 @@ fn run_history(w: &W, f: &FileModel, steps: u64, allow_faults: bool, allow_cut: 
 }
 
 fn ix_history(w: &W) -> Verdict {
-    let large = w.chance(1, 40);
-    if large {
-        w.probe("large_regime");
+    let scale = match w.draw(400) {
+        0..=379 => Scale::Small,
+        380..=389 => Scale::Large,
+        390..=395 => Scale::Many,
+        _ => Scale::Huge,
+    };
+    match scale {
+        Scale::Small => {}
+        Scale::Large => w.probe("large_regime"),
+        Scale::Many => w.probe("many_records_regime"),
+        Scale::Huge => w.probe("huge_regime"),
     }
-    let f = gen_file(w, large, 4, 60);
+    let f = gen_file(w, scale, 4, 60);
     w.probe("workload_nonempty");
     let faults = w.chance(3, 4);
-    run_history(w, &f, 10, faults, true)
+    // occasionally a long history on one reader
+    let max_steps = if w.chance(1, 50) { 60 } else { 10 };
+    run_history(w, &f, max_steps, faults, true)
 }
 
 fn ix_clean(w: &W) -> Verdict {
     // fault-free configuration: strict oracle only (no fault can excuse anything)
-    let f = gen_file(w, false, 3, 40);
+    let f = gen_file(w, Scale::Small, 3, 40);
     w.probe("workload_nonempty");
     w.fired("knob_fault_free_reference");
     run_history(w, &f, 10, false, false)
@@ -732,7 +812,7 @@ fn ix_clean(w: &W) -> Verdict {
 
 /// Every (s, e) pair of one small record, each under a fresh schedule.
 fn ix_allpairs(w: &W) -> Verdict {
-    let f = gen_file(w, false, 2, 24);
+    let f = gen_file(w, Scale::Small, 2, 24);
     w.probe("workload_nonempty");
     w.probe("allpairs_sweep");
     let chunk = *w.pick(&CHUNKS);
@@ -824,7 +904,7 @@ pub fn property() -> Property {
             "start_on_line_boundary", "stop_on_line_boundary", "empty_interval_read", "iterator_dropped_half_way", "operation_after_dropped_iterator",
             "read_after_failed_read", "exact_read_after_failed_operation", "operation_failed_by_injected_fault", "cut_inside_requested_range",
             "cut_after_requested_range", "cut_inside_terminator_after_range", "short_file_reported_as_error", "fetch_rejected_unknown_target",
-            "file_without_final_terminator", "large_regime", "allpairs_sweep",
+            "file_without_final_terminator", "magic_size_run", "large_regime", "many_records_regime", "huge_regime", "allpairs_sweep",
         ],
         quick_runs: 300_000,
         thorough_runs: 20_000_000,
